@@ -55,8 +55,10 @@ def stages(tier, seed, bins):
     # (iii') second shape-reading pattern: nodes leave their parents through the cascading cut
     for cap in ([64, 144, 234, 377, 500, 1000, 2000] + ([3000, 5000, 10000] if thorough else [])):
         for rep in range(3 if thorough else 1):
-            add(mode="adv", strategy="cascade", cap=cap, rounds=(20000 if thorough else 2500), seed=rnd.randrange(1 << 30),
-                pcut=rnd.choice([0.9, 1.0]), deep=rep % 2, timeout=1800)
+            # every round walks the whole structure: bound the work (rounds x capacity) rather than the rounds alone
+            rounds = min(20000 if thorough else 2500, max(1500, 40000000 // cap))
+            add(mode="adv", strategy="cascade", cap=cap, rounds=rounds, seed=rnd.randrange(1 << 30),
+                pcut=rnd.choice([0.9, 1.0]), deep=rep % 2, timeout=1800, ticks=max(200000000, 200 * rounds * cap))
     # (iv) Dijkstra-shaped histories
     for i in range(120 if thorough else 24):
         add(mode="dij", cap=rnd.choice([5, 10, 30, 64, 127, 200, 500]), k=rnd.choice([2, 3, 5, 8]),
